@@ -99,6 +99,43 @@ spec fn patched(c1: Seq<Opcode>, c2: Seq<Opcode>, at: int, target: int) -> bool 
     &&& forall|i: int| 0 <= i < c1.len() && i != at ==> c2[i] == c1[i]
 }
 
+// index of the entry take_first_cond_flow removes: scanning down from the top, skip Break entries,
+// stop at the first conditional entry (found) or at anything else / the context base (not found: -1)
+spec fn tfc_index(fl: Seq<Flow>, lo: int, i: int) -> int
+    decreases i - lo
+{
+    if i <= lo {
+        -1
+    } else {
+        let f = fl[i - 1];
+        if f is If || f is Else || f is Case || f is CaseOf || f is CaseEndOf {
+            i - 1
+        } else if f is Break {
+            tfc_index(fl, lo, i - 1)
+        } else {
+            -1
+        }
+    }
+}
+
+proof fn lemma_tfc_index(fl: Seq<Flow>, lo: int, i: int)
+    requires 0 <= lo, i <= fl.len()
+    ensures ({
+        let r = tfc_index(fl, lo, i);
+        r == -1 || (lo <= r < i
+            && (fl[r] is If || fl[r] is Else || fl[r] is Case || fl[r] is CaseOf || fl[r] is CaseEndOf)
+            && (forall|j: int| r < j < i ==> fl[j] is Break))
+    })
+    decreases i - lo
+{
+    if i > lo {
+        let f = fl[i - 1];
+        if f is Break {
+            lemma_tfc_index(fl, lo, i - 1);
+        }
+    }
+}
+
 impl State {
     // compiler invariant: the debug map covers the code, code addresses fit the jump encoding,
     // every pending flow entry points at its placeholder
